@@ -214,6 +214,11 @@ func (x *Exec) libFS(s *State, site ssa.Instruction, fn *ssa.Function, name stri
 		s.assume(Implies(Not(e.Nil), Eq(UF("ufb_is_not_exist", SBool, e.Opaque), Not(Select(exists, p)))))
 		info := &IfaceV{Nil: Not(e.Nil), Opaque: x.freshInt(s, site, "info$id"), Typ: res.At(0).Type()}
 		s.assume(Eq(UF("uf_fileinfo_size", SInt, info.Opaque), StrLen(Select(x.fsGet(s, "fsData"), p))))
+		if name == "os.Lstat" {
+			s.assume(Eq(UF("uf_fileinfo_mode", SInt, info.Opaque), UF("uf_lstat_mode", SInt, p)))
+		} else {
+			s.assume(Eq(UF("uf_fileinfo_mode", SInt, info.Opaque), UF("uf_stat_mode", SInt, p)))
+		}
 		k(s, &TupleV{E: []Val{info, e}})
 		return true
 	case "os.IsNotExist":
